@@ -676,6 +676,9 @@ def reject(rep, ex: Explorer, grammar):
             calls = [(i, ev) for i, ev in enumerate(evs) if ev.kind == "opaque.call"]
             entries = [(i, ev) for i, ev in calls if ev.method == entry and ev.typ == "CKBParser"]
             if not entries:
+                rv_ = p.outcome[1] if p.outcome[0] == "return" else None
+                if isinstance(rv_, Sym) and any(m in repr(rv_.label) for m in ("dictitem", "global", "'item'", "mcall")):
+                    raise AnalysisError(f"{site}: a path returns a stored value ({rv_!r}) without parsing; whether it is what parsing this text gave cannot be decided"[:300])
                 if p.outcome[0] == "return":
                     # a path that hands something back without the parser having read the text: whatever it returns was not
                     # checked against the grammar (constants, keywords, malformed text all slip through)
